@@ -36,7 +36,8 @@ fn gen_c(s: u64, i: u64, j: u64) -> i32 { (hsh(s, i, j) & 1023) as i32 - 512 }
 
 fn exec_line(line: &str) -> String {
     let kv = parse_kv(line);
-    let kern = kv.get("kern").cloned().unwrap();
+    // corpus lines of the other C17 stream (`D ...`, DynamicQuantizeLinear) are answered with an empty product
+    let kern = kv.get("kern").cloned().unwrap_or("generic".into());
     let (m, n, k) = (get_u(&kv, "m"), get_u(&kv, "n"), get_u(&kv, "k"));
     let (la, lb) = (get_u(&kv, "la"), get_u(&kv, "lb"));
     let (pa, pb) = (get_u(&kv, "pa") != 0, get_u(&kv, "pb") != 0);
@@ -110,6 +111,28 @@ fn generate(seed: u64, n: usize, tier: &str, out: &mut impl Write) {
             writeln!(out, "I kern={} m={} n={} k={} la={} lb={} pa=0 pb=0 am={} bm={} sa={} sb={} zam={} zbm={} sza={} szb={} beta={} sc={}",
                 kern, 2 * mr + 1, nr + 3, 13, rng.below(5), rng.below(5), am, bm, rng.below(1000), rng.below(1000), zm.0, zm.1, rng.below(1000), rng.below(1000), rng.below(2), rng.below(1000)).unwrap();
         }}}
+        // M / N spanning more than one row / column BLOCK (mc, nc as the hook reports them for that
+        // size), distinct per-row and per-column zero points, prepacked and not; K stays small.
+        {
+            let big = hk::block_params(&g, 1000, 1000, 8, None);
+            let (mc, nc) = (big.mc, big.nc);
+            let mut line = |m: usize, nn: usize, k: usize, pa: u8, pb: u8, rng: &mut SplitMix64| {
+                writeln!(out, "I kern={} m={} n={} k={} la={} lb={} pa={} pb={} am={} bm={} sa={} sb={} zam=2 zbm=2 sza={} szb={} beta={} sc={}",
+                    kern, m, nn, k, rng.below(5), rng.below(5), pa, pb, rng.pick(&[0u64, 2]), rng.pick(&[0u64, 2]), rng.below(1000), rng.below(1000),
+                    rng.below(1000), rng.below(1000), rng.below(2), rng.below(1000)).unwrap();
+            };
+            line(mc + 1, 9, 5, 0, 0, &mut rng);
+            line(2 * mc + 3, 7, 3, 1, 0, &mut rng);
+            line(mc - 1 + mr, nr + 1, 4, 0, 1, &mut rng);
+            line(5, nc + 1, 5, 0, 0, &mut rng);
+            line(mr + 1, 2 * nc + 3, 3, 0, 1, &mut rng);
+            line(3, nc - 1 + nr, 4, 1, 0, &mut rng);
+            line(mc + 1, nc + 1, 3, 0, 0, &mut rng);
+            if thorough {
+                line(2 * mc + 3, 2 * nc + 3, 2, 1, 1, &mut rng);
+                line(3 * mc, nc, 9, 0, 0, &mut rng);
+            }
+        }
         for _ in 0..n {
             let gemv = rng.chance(1, 4);
             let m = if gemv { 1 } else { rng.pick(&ms) };
